@@ -91,6 +91,7 @@ def _z3_check(ctx, path, extra, timeout_ms):
     zm = smt.Z3Map()
     s = z3.Solver()
     s.set("timeout", timeout_ms)
+    s.set("rlimit", 40000000)
     for node, S in ctx.pre + path.pc:
         s.add(smt.REL[sx.SETREL[S]](zm.term(node)))
     s.add(extra(zm))
